@@ -164,6 +164,18 @@ CHECKS["C17"] = (
     "Reference: IEEE double semantics of the named function from this harness' own table, cross-checked with Python's "
     "math; min/max with NaN and remainders of non-finite operands are left undefined.", "§5 C17")
 
+CHECKS["C16"] = (
+    "Hypothesis-generated token/line mutations of valid rule and FLL texts + grammar-generated rules with exactly one injected error, outcome-classification oracle; atheris coverage-guided campaigns with the same oracle in the thorough tier",
+    "Valid rules printed from generated ASTs (hedges, any, nested parentheses, output variables in antecedents, weights) "
+    "over an engine with disjoint name pools are mutated at token level (delete, duplicate, substitute, insert, "
+    "truncate, swap, glue); valid FLL documents (generated and shipped) at line/key/value/token level: every text is "
+    "either accepted (then exports, evaluates and re-imports to a fixed point, and is reported loaded) or rejected with "
+    "SyntaxError/ValueError/KeyError - never TypeError/AttributeError/IndexError/RecursionError/NameError/"
+    "AssertionError; a failed load leaves the rule not loaded; rules with exactly one injected error of the 13 listed "
+    "classes are never accepted.",
+    "Other exception types (RuntimeError ...) are counted as unclassified and listed, not judged. Thorough tier: atheris "
+    "targets fuzz/fuzz_rule.py and fuzz/fuzz_fll.py, seeded and empty corpus, -seed=VERIF_SEED.", "§5 C16")
+
 NOT_APPLICABLE = {}
 
 
